@@ -73,7 +73,33 @@ type faultConn struct {
 	events   []string // read write setdl setdl0 setwdl setwdl0 setrdl setrdl0 close fail
 	ops      int
 	failAt   int
-	failKind int // 0 error, 1 timeout, 2 EOF on reads
+	failKind int // 0 error, 1 timeout, 2 EOF on reads, 3 the operation stalls until the armed deadline has passed (or the connection is closed), then times out
+	deadline time.Time
+	closedCh chan struct{}
+	once     sync.Once
+}
+
+// stall: what a peer that has gone silent looks like
+func (f *faultConn) stall() {
+	f.mu.Lock()
+	dl := f.deadline
+	if f.closedCh == nil {
+		f.closedCh = make(chan struct{})
+	}
+	ch := f.closedCh
+	f.mu.Unlock()
+	wait := 1500 * time.Millisecond
+	if !dl.IsZero() {
+		if d := time.Until(dl) + 2*time.Millisecond; d < wait {
+			wait = d
+		}
+	}
+	if wait > 0 {
+		select {
+		case <-ch:
+		case <-time.After(wait):
+		}
+	}
 }
 
 func (f *faultConn) op(kind string) bool {
@@ -101,12 +127,20 @@ func (f *faultConn) err(read bool) error {
 }
 func (f *faultConn) Read(p []byte) (int, error) {
 	if f.op("read") {
+		if f.failKind == 3 {
+			f.stall()
+			return 0, timeoutErr{}
+		}
 		return 0, f.err(true)
 	}
 	return f.Conn.Read(p)
 }
 func (f *faultConn) Write(p []byte) (int, error) {
 	if f.op("write") {
+		if f.failKind == 3 {
+			f.stall()
+			return 0, timeoutErr{}
+		}
 		return 0, f.err(false)
 	}
 	return f.Conn.Write(p)
@@ -118,6 +152,9 @@ func dlName(base string, t time.Time) string {
 	return base
 }
 func (f *faultConn) SetDeadline(t time.Time) error {
+	f.mu.Lock()
+	f.deadline = t
+	f.mu.Unlock()
 	if f.op(dlName("setdl", t)) {
 		return f.err(false)
 	}
@@ -138,7 +175,12 @@ func (f *faultConn) SetWriteDeadline(t time.Time) error {
 func (f *faultConn) Close() error {
 	f.mu.Lock()
 	f.events = append(f.events, "close")
+	if f.closedCh == nil {
+		f.closedCh = make(chan struct{})
+	}
+	ch := f.closedCh
 	f.mu.Unlock()
+	f.once.Do(func() { close(ch) })
 	return f.Conn.Close()
 }
 
@@ -147,6 +189,7 @@ type hopRecord struct {
 	addr   string
 	sawTLS bool
 	sni    string
+	ctxDL  bool // the context handed to the dial function carried a deadline
 }
 
 type world struct {
@@ -173,6 +216,7 @@ func (w *world) hook(fn string) func(ctx context.Context, network, addr string) 
 	return func(ctx context.Context, network, addr string) (net.Conn, error) {
 		ce, se := memPipe()
 		rec := &hopRecord{fn: fn, addr: addr}
+		_, rec.ctxDL = ctx.Deadline()
 		fc := &faultConn{Conn: ce, failAt: w.failAt, failKind: w.failKind}
 		w.mu.Lock()
 		w.hops = append(w.hops, rec)
